@@ -76,6 +76,10 @@ StepClauses(p, r) ==
               /\ m.run = IF Kind(m.alg) = "regress" THEN 0
                          ELSE IF rid[m.alg] # None THEN rid[m.alg]
                          ELSE IF Len(r.obs.drawn) > 0 THEN r.obs.drawn[1].run ELSE None)
+    \cup FailClause("C11.RunIdFromEventOnly",
+           \* what the triggering event carried (the node's run id) is changed by events only -- a request, new data
+           \* from a reply, a (re)load -- never by dispatching, registering, polling or losing a worker
+           (r.ev \in {"Tick", "Register", "Connect", "Poll", "Lost", "Notify"}) => rid' = rid)
     \cup FailClause("C11.Stay",
            \* bag(queued after) + bag(written) = bag(queued before) + bag(created), message by message
            r.ev = "Tick" =>
